@@ -77,12 +77,13 @@ def run(run):
         pts.append(v)
     reqs, meta = [], []
     for v in pts:
-        ds = sorted(((geo.dot(v, c), i) for i, c in enumerate(centres)), reverse=True)
         th, ph = sph(v)
         if rng.random() < 0.1:
             # the same direction given with the azimuth many whole turns away; the reference point is that of the ROUNDED azimuth
+            # (and the nearest / second-nearest faces are those of that point)
             th = th + gen.turns(rng) * 2 * math.pi
             v = cart(th, ph)
+        ds = sorted(((geo.dot(v, c), i) for i, c in enumerate(centres)), reverse=True)
         reqs.append(f"dodeca_forward {geo.hx(th)} {geo.hx(ph)} {ds[0][1]}"); meta.append((v, "nearest", ds[0][0] - ds[1][0]))
         reqs.append(f"dodeca_forward {geo.hx(th)} {geo.hx(ph)} {ds[1][1]}"); meta.append((v, "second", ds[0][0] - ds[1][0]))
     impl, model = core.both(run, reqs, "dodeca_forward")
